@@ -71,7 +71,8 @@ FIRSTS = ["B", "1", "-", ".", "~", "Z", "Ä"]
 IMAGE_CASES = []
 for lang, canon_ns, spell_ns in (("en", "File", ["File", "file", "FILE", "Image", "image"]),
                                  ("de", "Datei", ["Datei", "datei", "Bild", "File", "Image", "file"])):
-    for partial in ("Abc.png", "Abc d.png", "Äb.png", "A-b~c.png", "1.png", "Abc d.e.svg"):
+    for partial in ("Abc.png", "Abc d.png", "Äb.png", "A-b~c.png", "1.png", "Abc d.e.svg",
+                    "A+b.png", "H+ ion.png"):  # (wave 11: a plus sign is a legal title character, not an encoded blank)
         IMAGE_CASES.append((lang, canon_ns, tuple(spell_ns), partial))
 
 
